@@ -65,7 +65,11 @@ func (g *gen) giantCluster() string {
 	switch g.r.Intn(5) {
 	case 0, 4:
 		sb.WriteString([]string{"a", "\U0001F469", "\U0001F469"}[g.r.Intn(3)])
-		for i := 0; i < 33+g.r.Intn(38); i++ {
+		nm := 33 + g.r.Intn(38)
+		if g.chance(0.3) {
+			nm = 64 + g.r.Intn(140)
+		}
+		for i := 0; i < nm; i++ {
 			sb.WriteString([]string{"\u0301", "\u0308", "\u0323"}[g.r.Intn(3)])
 		}
 		if g.chance(0.5) {
@@ -112,6 +116,17 @@ func (g *gen) denseText(n int) string {
 			sb.WriteString(" ")
 		}
 	}
+	return sb.String()
+}
+
+// pictograph + 32–90 Extend + ZWJ + pictograph: one cluster by GB11, whatever the distance
+func (g *gen) giantZWJ() string {
+	var sb strings.Builder
+	sb.WriteString([]string{"\U0001F469", "\U0001F468", "\u2764"}[g.r.Intn(3)])
+	for i := 0; i < 32+g.r.Intn(59); i++ {
+		sb.WriteString([]string{"\u0301", "\ufe0f", "\U0001F3FD"}[g.r.Intn(3)])
+	}
+	sb.WriteString("\u200d\U0001F467")
 	return sb.String()
 }
 
@@ -414,6 +429,11 @@ func (g *gen) opts(mode int) (rosed.Options, string, string) {
 		ps = o.ParagraphSeparator
 		if ls == "\r\n" && g.chance(0.7) {
 			o.ParagraphSeparator = "\r\n\r\n"
+			ps = o.ParagraphSeparator
+		}
+		if (ls == "|" || ls == "<br>" || ls == "\uFFFD") && g.chance(0.5) {
+			// a paragraph separator that is a repetition of a VISIBLE line separator (ambiguous overlap)
+			o.ParagraphSeparator = ls + ls
 			ps = o.ParagraphSeparator
 		}
 	}
@@ -741,6 +761,10 @@ func (g *gen) groupChars(n int) {
 			t = g.dirty(t)
 		}
 		special := false
+		if g.chance(0.02) {
+			g.stalePrefixProg(o)
+			continue
+		}
 		if g.chance(0.03) {
 			// long and dense: more than 2048 bytes, more than four code points per character
 			t = g.denseText(110 + g.r.Intn(150))
@@ -754,6 +778,9 @@ func (g *gen) groupChars(n int) {
 		var step string
 		if special {
 			a, b := g.r.Intn(12), g.r.Intn(12)
+			if g.chance(0.5) {
+				a, b = g.r.Intn(3), g.r.Intn(2)
+			}
 			switch g.r.Intn(3) {
 			case 0:
 				step = fmt.Sprintf("chars,0,%d,%d", a, a+b)
@@ -806,25 +833,32 @@ func (g *gen) groupChars(n int) {
 }
 
 // nested selections with edits between selection and commit (C05)
+// a selection of 64–300 multi-byte characters, cut down to a prefix of itself (long enough in BYTES
+// to pass for the whole selection in a length check), then counted and addressed from the end:
+// anything remembered about the big selection is stale now
+func (g *gen) stalePrefixProg(o rosed.Options) {
+	nsel := 66 + g.r.Intn(240)
+	wide := []string{"中", "각", "\U0001D11E", "é", "\U0001F44D\U0001F3FD", "ß"}
+	var sb strings.Builder
+	for i := 0; i < nsel+12; i++ {
+		sb.WriteString(wide[g.r.Intn(len(wide))])
+		if g.chance(0.1) {
+			sb.WriteString(" ")
+		}
+	}
+	k := nsel/3 + g.r.Intn(nsel-nsel/3-1)
+	cut := []string{fmt.Sprintf("delete,1,%d,End", k), fmt.Sprintf("charsto,1,%d", k)}[g.r.Intn(2)]
+	g.emit("prog", strings.Join([]string{g.editStep(sb.String(), o), fmt.Sprintf("chars,0,%d,%d", g.r.Intn(5), 5+nsel), "charcount,1", cut,
+		"charcount,2", "delete,2,-1,End", fmt.Sprintf("overtype,2,-1,%s", encText("Z")), "string,2", "commit,2", "string,5", "commit,5"}, ";"))
+}
+
 func (g *gen) groupCommit(n int) {
 	for i := 0; i < n; i++ {
 		mode := g.modeFor()
 		o, ls, ps := g.opts(mode)
 		t := g.text(mode, ls, ps)
 		if g.chance(0.02) {
-			// a selection of 64–400 multi-byte characters, cut down to a prefix of itself, then counted
-			// and addressed from the end (anything remembered about the big selection is stale now)
-			nsel := 70 + g.r.Intn(330)
-			var sb strings.Builder
-			for sb.Len() < 3*(nsel+20) {
-				sb.WriteString(g.word(0, 6))
-				sb.WriteString(" ")
-			}
-			t = "é" + sb.String()
-			k := 1 + g.r.Intn(40)
-			cut := []string{fmt.Sprintf("delete,1,%d,End", k), fmt.Sprintf("charsto,1,%d", k)}[g.r.Intn(2)]
-			g.emit("prog", strings.Join([]string{g.editStep(t, o), fmt.Sprintf("chars,0,%d,%d", g.r.Intn(5), 5+nsel), "charcount,1", cut,
-				"charcount,2", "delete,2,-1,End", fmt.Sprintf("overtype,2,-1,%s", encText("Z")), "string,2", "commit,2", "string,5", "commit,5"}, ";"))
+			g.stalePrefixProg(o)
 			continue
 		}
 		st := []string{g.editStep(t, o)}
@@ -896,6 +930,27 @@ func (g *gen) groupEdit(n int) {
 		}
 		if g.chance(0.1) {
 			t = g.dirty(t)
+		}
+		if g.chance(0.04) {
+			// one very long cluster (pictograph, 32–90 marks, ZWJ, pictograph) with text after it: the
+			// positions behind it are wrong for whoever splits it
+			z := g.giantZWJ()
+			pre := g.word(2, 2)
+			t = pre + z + "xyz " + g.word(mode, 3)
+			p := len(pre) + g.r.Intn(4)
+			var step string
+			switch g.r.Intn(4) {
+			case 0:
+				step = fmt.Sprintf("delete,0,%d,%d", p+1, p+2)
+			case 1:
+				step = fmt.Sprintf("insert,0,%d,%s", p+1, encText("|"))
+			case 2:
+				step = fmt.Sprintf("overtype,0,%d,%s", p, encText(z))
+			default:
+				step = fmt.Sprintf("delete,0,%d,End", -2-g.r.Intn(3))
+			}
+			g.emit("prog", g.editStep(t, rosed.Options{})+";"+step)
+			continue
 		}
 		cc := clusterCount(t)
 		ins := g.word(mode, 4)
